@@ -30,6 +30,10 @@ def main(argv: list) -> int:
                 return c18.replay(path)
             print("unknown property in replay file: %r" % prop)
             return 2
+        if argv[0] == "sensitivity":
+            from . import sensitivity
+
+            return sensitivity.main(argv[1:])
         if argv[0] == "selftest":
             from . import selftest
 
